@@ -82,9 +82,32 @@ def bump(d, k, n=1):
 
 
 # ------------------------------------------------------------------ running harness / driver
+import resource
+
+OUT_CAP = 512 << 20          # bytes a child may write to its stdout/stderr files (RLIMIT_FSIZE)
+
+
+def _limits(fsize=OUT_CAP, cpu=1500):
+    def f():
+        resource.setrlimit(resource.RLIMIT_FSIZE, (fsize, fsize))
+        resource.setrlimit(resource.RLIMIT_CPU, (cpu, cpu + 5))
+        resource.setrlimit(resource.RLIMIT_CORE, (0, 0))
+    return f
+
+
 def run_proc(cmd, data, timeout=900):
-    p = subprocess.run(cmd, input=data, stdout=subprocess.PIPE, stderr=subprocess.PIPE, env=ENV, timeout=timeout)
-    return p.returncode, p.stdout, p.stderr
+    """run a child with its output going to capped temporary files (never an unbounded pipe), a CPU limit and a
+    wall-clock timeout; returns (rc, stdout, stderr)"""
+    tmpdir = os.path.join(VERIF, ".cache")
+    with tempfile.TemporaryFile(dir=tmpdir) as fo, tempfile.TemporaryFile(dir=tmpdir) as fe:
+        try:
+            p = subprocess.run(cmd, input=data, stdout=fo, stderr=fe, env=ENV, timeout=timeout, preexec_fn=_limits())
+            rc = p.returncode
+        except subprocess.TimeoutExpired:
+            rc = -9
+        fo.seek(0)
+        fe.seek(0)
+        return rc, fo.read(), fe.read(1 << 20)
 
 
 def parse_framed(out):
@@ -667,7 +690,8 @@ def corpus_texts(rng):
         out = os.path.join(tmp, "%x.mir" % (hash(f) & 0xFFFFFFFF))
         try:
             p = subprocess.run([c2m, "-S", os.path.basename(f), "-o", out], cwd=os.path.dirname(f),
-                               stdout=subprocess.PIPE, stderr=subprocess.PIPE, timeout=60)
+                               stdout=subprocess.DEVNULL, stderr=subprocess.DEVNULL, timeout=60,
+                               preexec_fn=_limits(fsize=64 << 20, cpu=60))
             if p.returncode == 0 and os.path.exists(out):
                 d = open(out, "rb").read()
                 os.remove(out)
